@@ -5,6 +5,10 @@ V = os.path.dirname(os.path.dirname(os.path.abspath(__file__)))
 props = [json.loads(l) for l in open(os.path.join(V, "properties.jsonl"))]
 
 CLAIMED = {
+ "C08": dict(
+   text="Gallina model of the milu type checker and evaluator exactly as the crate implements them (lazy arrays/tuples, let bindings as environment-carrying thunks, one-level forcing, Any wildcard, every builtin body with checked i64 arithmetic) in the redproxy script environment. Proved so far: totality and typing of the integer and comparison builtin bodies, accessor type tables agree with the values delivered, and REFUTATION theorems with concrete witnesses for the two recorded soundness holes; the soundness induction for the let-free fragment is proved in MiluSound.v when that file is present (see evidence.coverage.property_theorems). Tie: extracted parser+checker+evaluator vs the real milu crate on typed-generated, depth-2 exhaustive and random programs under 5 requests, with the property itself as oracle (accepted => value of that type or a dynamic error).",
+   note="Partial: the unbounded soundness theorem covers the let-free fragment only (programs with `let` are covered by the differential check and two recorded known-finding classes); regex crate and IP/CIDR text parsing are Section-variable oracles; template strings are outside the model; termination is by fuel (out-of-fuel is excluded by the statements).",
+   tech="Rocq proof over an executable checker/evaluator model + differential correspondence with a property oracle"),
  "C09": dict(
    text="The parser model (a PEG interpreter mirroring the nom combinators) is instantiated with the operator ladder REGENERATED from milu/src/parser.rs on every run and checked inside Rocq against the documented table regenerated from milu/readme.md: every documented operator and spelling, every ordered pair (precedence, associativity), every ordered triple over the precedence levels, unary/postfix/conditional/scope interactions, tag-shadowing discipline of ordered choice, and blank/comment fillers at every token boundary of sample forms - each a complete enumeration evaluated by vm_compute. Tie: the extracted parser model vs milu::parser::parse on exhaustive pairs/triples, random trees to depth 5 in four spellings, and a lexical edge list, with an independently written expected-tree oracle.",
    note="Partial: the unbounded statement parse(print e) = e for all trees and all fillers is not proved (the finite families above are); template strings are outside the model; nom is modelled. Trusted: Coq kernel, vm_compute, translator, extraction, glue.",
